@@ -79,14 +79,14 @@ def body():
     creds = tlslib.ensure_creds()
     DEV = {  # deviation -> (certificate presented, chains to the anchors, possession proved)
         "honest": (True, True, True), "empty_cert": (False, False, False), "empty_cert_with_cv": (False, False, True), "no_cert_msg": (False, False, False),
-        "cert_no_cv": (True, True, False), "cv_wrong_key": (True, True, False), "cv_stale_transcript": (True, True, False),
+        "cert_no_cv": (True, True, False), "cv_wrong_key": (True, True, False), "cv_stale_transcript": (True, True, False), "cv_alg_other": (True, True, False),
         # sequence deviations with otherwise good credentials: never a completed handshake
         "ccs_early": (True, True, True), "no_ccs": (True, True, True), "ccs_twice": (True, True, True), "finished_plain": (True, True, True), "finished_wrong": (True, True, True), "no_finished": (True, True, True)}
     MALFORMED = {"ccs_early", "no_ccs", "ccs_twice", "finished_plain", "finished_wrong", "no_finished"}
     MALFORMED = {"ccs_early", "no_ccs", "ccs_twice", "finished_plain", "finished_wrong", "no_finished"}
     jobs = []
     for proto, sp in ((257, "tlcp"), (771, "srv"), (772, "srv")):
-        jobs += [(proto, sp + "_d2", "trust_root", d, "cli_d2") for d in DEV if not (proto == 772 and "ccs" in d)]          # TLS 1.3 has no ChangeCipherSpec
+        jobs += [(proto, sp + "_d2", "trust_root", d, "cli_d2") for d in DEV if not (proto == 772 and "ccs" in d) and not (proto != 772 and d == "cv_alg_other")]          # TLS 1.3 has no ChangeCipherSpec
         jobs += [(proto, sp + "_d2", "trust_evil", "honest", "cli_d2"), (proto, sp + "_d2", "trust_root", "honest", "cli_untrusted"), (proto, sp + "_d2", "-", "honest", "cli_d2"),
                  (proto, sp + "_d3", "trust_root", "empty_cert", "cli_d2"), (proto, sp + "_d1", "trust_root", "cert_no_cv", "cli_d3")]
         jobs += [(proto, sp + "_d2", "-", d, "cli_d2") for d in sorted(MALFORMED) if not (proto == 772 and "ccs" in d)]            # the same sequence deviations without client authentication
@@ -111,7 +111,11 @@ def body():
     # ... and the library client against an independent server (server-auth handshakes): deviation -> (possession proved, sequence well formed)
     SDEV = {257: {"honest": (True, True), "ske_wrong_key": (False, True), "ske_stale_random": (False, True), "no_ske": (False, False), "finished_wrong": (True, False), "finished_plain": (True, False), "no_ccs": (True, False)},
             772: {"honest": (True, True), "no_cv": (False, False), "no_cert": (False, False), "cv_wrong_key": (False, True), "cv_stale_transcript": (False, True), "cv_client_context": (False, True), "finished_wrong": (True, False)}}
-    SDEV[771] = SDEV[257]
+    SDEV[772]["cv_alg_other"] = (False, True)
+    SDEV[771] = dict(SDEV[257])
+    # TLS 1.2: the hello extensions the client relies on are not all echoed, and the key exchange is signed by somebody else / under another algorithm label
+    for dname in ("only_ecpf+ske_wrong_key", "no_groups+ske_wrong_key", "no_sigalg+ske_wrong_key", "ske_alg_other+ske_wrong_key", "ske_alg_other"):
+        SDEV[771][dname] = (False, False)
     sjobs = []
     for proto, sp in ((257, "tlcp"), (771, "srv"), (772, "srv")):
         sjobs += [(proto, sp + "_d2", "trust_root", d) for d in SDEV[proto]]
@@ -137,7 +141,7 @@ def body():
     c.cov["rogue_peer_handshakes"] = len(rexecs)
     for i, j, ev in rej2:
         key, evs, view = rexecs[i]
-        c.violation(key, "the library server's verdict on a deviating peer is not the contract's: %s" % json.dumps(ev)[:300], {"event": ev, "peer_view": view})
+        c.violation(key, "the library endpoint's verdict on a deviating peer is not the contract's: %s" % json.dumps(ev)[:300], {"event": ev, "peer_view": view})
     outcomes = {}
     for key, s, evs in execs:
         end = evs[-1]
